@@ -9,7 +9,7 @@ RULE = ("token soups over the terminal alphabet of grammar.pest; grammar-directe
         "single-edit mutations of them (delete / insert / duplicate a token, toggle '~', swap tag kinds); every tag kind x "
         "position of '~' x else / else-chain form; EXHAUSTIVELY every tag opener x body of length ≤ 2 (thorough: 3) over {- ! space é a } ~} x every closer; each compiled by the real crate under catch_unwind in a child process "
         "and by the Lean model (AST, error variant, line, column compared); plus registrations of a bad source over a good "
-        "one (registry unchanged); non-trivial = not plain text; distinct by source")
+        "one (registry unchanged; also in dev mode over a name that follows a file); non-trivial = not plain text; distinct by source")
 DEFINITE_FLOOR = 0.99
 TOKENS = ["{{", "}}", "{{{", "}}}", "{{{{", "}}}}", "#", "/", ">", "*", "~", "!", "!--", "--", "&", "^", "else", "if", "each",
           "with", "unless", "inline", "raw", "as", "|", "(", ")", "=", "@", "../", "./", "this", ".", "[", "]", "\"", "'", "\\",
@@ -121,6 +121,20 @@ def generate(rng, n, tier="quick"):
                 src = mutate(r, src)
         elif mode == "nest":
             src = nested(r, r.pick([1, 2, 5, 17, 40, 64]))
+        elif mode == "reg" and r.chance(0.4):
+            # the same in dev mode over a name that follows a file: after the rejected registration the name still follows its file
+            bad = r.pick(["{{#if a}}", "{{/if}}", "{{#if a}}{{/each}}", "{{foo 1.}}", "{{", "{{> }}"]) if r.chance(0.7) else mutate(r, "{{#if a}}x{{/if}}")
+            case = {"kind": "session", "regs": [{}], "ops": [
+                {"op": "set_dev", "reg": 0, "v": True},
+                {"op": "write_file", "file": "f1", "content": "G{{x}}"},
+                {"op": "reg_file", "reg": 0, "name": "t", "file": "f1"},
+                {"op": r.pick(["reg_string", "reg_partial"]), "reg": 0, "name": "t", "src": bad},
+                {"op": "write_file", "file": "f1", "content": "H{{x}}"},
+                {"op": "has", "reg": 0, "name": "t"}, {"op": "keys", "reg": 0},
+                {"op": "render", "reg": 0, "api": "render", "name": "t", "data": enc({"x": 1})}]}
+            case["id"] = "%s-%06d" % (ID, i)
+            out.append((case, {"mode": "regdev", "src": bad}))
+            continue
         else:
             # a bad registration over a good one must leave the registry as it was
             good = "G{{x}}"
@@ -145,6 +159,17 @@ def generate(rng, n, tier="quick"):
 
 def oracle(case, meta, impl):
     v = []
+    if meta["mode"] == "regdev":
+        rs = impl.get("results", [])
+        if len(rs) != 8:
+            return ["session did not complete"]
+        for r in rs:
+            if r.get("r") in ("panic", "crash", "hang"):
+                return ["registration %s" % r.get("r")]
+        if rs[3].get("r") == "terr":
+            if rs[5].get("v") is not True or rs[6].get("v") != ["t"] or rs[7].get("out") != "H1":
+                v.append("a rejected registration changed the registry (the name no longer follows its file): %s %s %s" % (rs[5], rs[6], rs[7]))
+        return v
     if meta["mode"] == "reg":
         rs = impl.get("results", [])
         if len(rs) != 5:
@@ -184,7 +209,7 @@ def nontrivial_key(case, meta, impl):
 
 
 def outcome_kind(case, meta, impl):
-    if meta["mode"] == "reg":
+    if meta["mode"] in ("reg", "regdev"):
         return "reg"
     return "%s:%s" % (impl.get("r"), impl.get("reason", ""))
 
